@@ -5,16 +5,18 @@ import PhysisModel.Model.Fault.Fs
 /-!
 # Fault model of `ZiPatch::apply` (src/patch.rs) with `read_data_block_patch` (src/sqpack/mod.rs)
 
-Mirrors the code after `fixes/C17-08 … C17-11`:
+Mirrors the code after `fixes/C17-08 … C17-11` and `C17-13`:
 * a command before the target-info chunk is `Err(ParseError)` (was `unwrap`);
 * `read_data_block_patch` returns `None` → `Err` on a truncated / corrupt block (was `unwrap`,
   sign-extending casts, unchecked subtraction, `vec![0; file_size]`);
 * `write_empty_file_block_at` validates `block_number − 1` first (was underflow / `unwrap`);
 * byte and string fields with a length from the file are read incrementally (`vecU8Bounded`; was
-  binrw's `Vec<u8>` `reserve_exact(count)`), `Vec::with_capacity(file_size)` is gone.
-
-Still there (recorded finding `patch-block-decompressed-alloc`): a *compressed* block allocates the
-`decompressed_length` its header declares (< 2^31) before inflating.
+  binrw's `Vec<u8>` `reserve_exact(count)`), `Vec::with_capacity(file_size)` is gone;
+* C17-13: a *compressed* block whose header declares more than `MAX_DECOMPRESSED_BLOCK_SIZE` (1 MiB)
+  decompressed bytes is `None` before the output buffer is allocated (`capped := true`; was: allocate
+  up to 2 GiB, zero-filled), and the AddFile loop opens the target first and writes every block as
+  soon as it is read (`streamBlocks`; was: append every block to one `Vec` and write it at the end —
+  `readBlocksAccum`, kept for the witness that the cap alone would not do).
 
 The patch file is the cursor's input; the file system is a pure value (`Fs.FS`), an I/O error is the
 ordinary failure.  `inflate` (libz-rs) is a parameter: `inflate compressed n = true` when the raw-deflate stream ends
@@ -212,8 +214,13 @@ def chunk : P Cmd := do
 
 def u32AsI32 (v : UInt32) : Int := i32OfU32 v
 
-/-- one block (its length); `inflate` is libz-rs' raw inflate into a zeroed buffer of the declared size -/
-def readDataBlock (inflate : Bytes → Nat → Bool) : P Nat := do
+/-- `MAX_DECOMPRESSED_BLOCK_SIZE` (src/sqpack/mod.rs): 1 MiB; the game writes blocks of at most 16000 bytes -/
+def maxDecompressedBlockSize : Nat := 2 ^ 20
+
+/-- one block (its length); `inflate` is libz-rs' raw inflate into a zeroed buffer of the declared size.
+`capped := true` is the code with fix C17-13; `false` the code before it (the declared
+`decompressed_length` is allocated whatever it is). -/
+def readDataBlock (capped : Bool) (inflate : Bytes → Nat → Bool) : P Nat := do
   -- `BlockHeader`
   let size ← P.u32le
   P.skip 4
@@ -224,12 +231,13 @@ def readDataBlock (inflate : Bytes → Nat → Bool) : P Nat := do
     -- Compressed
     P.guard (decide (0 ≤ u32AsI32 x))           -- usize::try_from(compressed_length).ok()?
     P.guard (decide (0 ≤ u32AsI32 y))           -- usize::try_from(decompressed_length).ok()?
+    P.guard (!capped || decide (y.toNat ≤ maxDecompressedBlockSize))   -- `> MAX_DECOMPRESSED_BLOCK_SIZE` → None
     let padded := (x.toNat + 143) &&& 0xFFFFFF80
     P.guard (decide (size.toNat ≤ padded))      -- checked_sub(block_header.size)?
     let n := padded - size.toNat
     P.alloc n                                   -- vec![0; compressed_length]
     let comp ← P.take n
-    P.alloc y.toNat                             -- vec![0; decompressed_length]   (finding)
+    P.alloc y.toNat                             -- vec![0; decompressed_length]
     P.guard (inflate comp y.toNat)              -- `if !no_header_decompress(..) { return None }`
     pure y.toNat
   else do
@@ -242,15 +250,42 @@ def readDataBlock (inflate : Bytes → Nat → Bool) : P Nat := do
     P.skip (newFileSize - size.toNat - fileSize)
     pure data.length
 
-/-- `while data.len() < fop.file_size { data.append(read_data_block_patch(..)?) }`; only the
-length of `data` matters -/
-def readBlocks (inflate : Bytes → Nat → Bool) (fileSize : Nat) : Nat → Nat → P Nat
+/-- `write_all` of `len` bytes at `offset` into a file the file system lets grow to `limit` bytes
+(quota / `RLIMIT_FSIZE` / disk size): an empty write always succeeds, anything ending beyond the
+limit is an I/O error.  The harness runs with `RLIMIT_FSIZE = limit`. -/
+def writeOk (limit offset len : Nat) : Bool := len == 0 || offset + len ≤ limit
+
+/-- `if let Some(f) = new_file.as_mut() { f.write_all(&block)? }` with the target's cursor at `out` -/
+def writeBlock (limit : Nat) (out : Option Nat) (blk : Nat) : P Unit :=
+  match out with
+  | some pos => P.guard (writeOk limit pos blk)
+  | none => pure ()
+
+/-- The AddFile block loop (fix C17-13):
+`let mut remaining = fop.file_size; while remaining > 0 { let block = read_data_block_patch(..)?;
+if let Some(f) = new_file.as_mut() { f.write_all(&block)? }; remaining = remaining.saturating_sub(block.len()) }`.
+`out` is the position of the target's cursor when the target could be opened (`None` = "does not
+exist, skipping": the blocks are read and dropped).  Nothing is kept between iterations, so the
+only requests are those of one block. -/
+def streamBlocks (inflate : Bytes → Nat → Bool) (limit : Nat) : Nat → Option Nat → Nat → P Unit
+  | 0, _, _ => P.fault .fuel
+  | fuel + 1, out, remaining =>
+    if 0 < remaining then do
+      let blk ← readDataBlock true inflate
+      writeBlock limit out blk
+      streamBlocks inflate limit fuel (out.map (· + blk)) (remaining - blk)
+    else pure ()
+
+/-- the loop before C17-13: `while data.len() < fop.file_size { data.append(read_data_block_patch(..)?) }`;
+only the length of `data` matters.  Not used by `apply` any more; `c17_apply_accumulate_unfixed_witness`
+shows on it that capping the block size alone leaves the accumulated `Vec` out of proportion. -/
+def readBlocksAccum (capped : Bool) (inflate : Bytes → Nat → Bool) (fileSize : Nat) : Nat → Nat → P Nat
   | 0, _ => P.fault .fuel
   | fuel + 1, have_ =>
     if have_ < fileSize then do
-      let blk ← readDataBlock inflate
+      let blk ← readDataBlock capped inflate
       P.alloc (2 * (have_ + blk))              -- `Vec::append` growth
-      readBlocks inflate fileSize fuel (have_ + blk)
+      readBlocksAccum capped inflate fileSize fuel (have_ + blk)
     else pure have_
 
 /-! ### the effect of a chunk on the file system -/
@@ -279,11 +314,6 @@ def io (o : Option α) : P α := P.ofOption o
 
 /-- `write_empty_file_block_at`: only its validation can fail here -/
 def emptyBlockOk (blockNumber : UInt32) : Bool := 1 ≤ blockNumber.toNat && blockNumber.toNat - 1 < 2 ^ 31
-
-/-- `write_all` of `len` bytes at `offset` into a file the file system lets grow to `limit` bytes
-(quota / `RLIMIT_FSIZE` / disk size): an empty write always succeeds, anything ending beyond the
-limit is an I/O error.  The harness runs with `RLIMIT_FSIZE = limit`. -/
-def writeOk (limit offset len : Nat) : Bool := len == 0 || offset + len ≤ limit
 
 def exec (inflate : Bytes → Nat → Bool) (limit : Nat) (fs : FS) (ti : Option UInt8) (c : Cmd) : P (FS × Option UInt8) :=
   match c with
@@ -324,15 +354,18 @@ def exec (inflate : Bytes → Nat → Bool) (limit : Nat) (fs : FS) (ti : Option
       let fs ← io (fs.createDirAll parent)
       -- (the crc was only peeked, see `crc`)
       let patch ← P.input
-      let dataLen ← readBlocks inflate fileSize.toNat (patch.length + 1) 0
-      P.skip 4
+      -- the target is opened before the first block is read (fix C17-13)
       match fs.openCreate path with
       | some fs' =>
         -- `file.seek(SeekFrom::Start(fop.offset))?` fails for offsets ≥ 2^63
         P.guard (decide (offset.toNat < 2 ^ 63))
-        P.guard (writeOk limit offset.toNat dataLen)              -- `file.write_all(&data)?`
+        streamBlocks inflate limit (patch.length + 1) (some offset.toNat) fileSize.toNat
+        P.skip 4
         pure (fs', ti)
-      | none => pure (fs, ti)                                     -- "does not exist, skipping"
+      | none =>                                                   -- "does not exist, skipping"
+        streamBlocks inflate limit (patch.length + 1) none fileSize.toNat
+        P.skip 4
+        pure (fs, ti)
     | .deleteFile => pure (fs.removeFile path, ti)
     | .removeAll => pure (fs.removeDirAll (ascii ("sqpack/" ++ expansionFolder expansion.toNat)), ti)
     | .makeDirTree => do
